@@ -35,7 +35,9 @@ EXHAUSTIVE = False
 RULE = (
     'cases = every (deprecated alias, receiver class inheriting it) pair and every (renamed keyword, function, receiver '
     'class) triple discovered at run time, each with 1-4 argument variants from a fixture registry keyed by the '
-    'replacement (seeded tables, formulas, estimated model); thorough repeats with several seeds. A case is non-trivial '
+    'replacement (seeded tables, formulas, estimated model). quick: first two variants per pair of the expression '
+    'hierarchy, a seeded third of the receivers per renamed keyword of that hierarchy; thorough: all variants, all '
+    'receivers, two independent seeds of the fixtures. A case is non-trivial '
     'when both the old and the new spelling were executed and compared; distinct = hash of (alias or keyword, receiver '
     'class, variant label, seed-dependent fixture id)'
 )
@@ -45,10 +47,10 @@ ASSUMPTIONS = [
     'floats compared at rtol 1e-10 (same code on same inputs; slack only for summation order inside the engine)',
     'receivers are the classes of the package (walk of __subclasses__); user-defined subclasses are not generated',
 ]
-MIN_DISTINCT = {'quick': 1000, 'thorough': 4500}
+MIN_DISTINCT = {'quick': 1000, 'thorough': 3000}
 CASE_TIMEOUT = 300
 
-REPS = {'quick': 1, 'thorough': 3}
+REPS = {'quick': 1, 'thorough': 2}
 
 EXPR_ROOT = 'biogeme.expressions.base_expressions.Expression'
 
